@@ -9,15 +9,17 @@ from vlib import vbytes, vlist, parse_val
 
 NEED_RG = True
 MANIFEST = dict(
-    text="Coq theorems: Gitignore::matched_stripped returns the LAST line (file order) whose glob matches and whose "
-         "directory-only flag admits the entry, whitelist or ignore accordingly (uses C12's set_eq_members, all line "
-         "lists, all paths); matched_path_or_any_parents = first verdict walking up the parents; nearest ignore file "
-         "first and pruning of ignored directories in the tree walk; add_line's flags (comment, trailing blanks as git "
-         "trims them, negation, anchoring, directory-only, implicit **/ prefix, /** => /**/*) by computation lemmas. "
-         "The equality of one gitignore line with git's documented component-level semantics (Spec/GitSem.v) is "
-         "PARTIAL: stated in full, proved for the slash-free pattern class, tested (extracted GitSem and rg model vs "
-         "real git and real rg on generated repositories) for the rest. Tie to the code: three-way, "
-         "git check-ignore / git ls-files vs rg --files and Gitignore::matched_path_or_any_parents vs the model.",
+    text="Coq theorems: (pattern level) for every pattern of the documented grammar in segment form (components of "
+         "literals, ?, *, classes that cannot match '/'; ** as a whole segment; anchored or not), every path: the regex "
+         "meaning of the tokens ripgrep produces = git's component-wise matching (gitignore_pattern_eq_git); (line "
+         "level) for every line in an executable class (both line readers run, tokens = segment form, flags agree) "
+         "ripgrep's reading = GitSem's; (file level) last matching line wins through the real pipeline (add_line, glob "
+         "set, reverse scan) = git's file verdict; (tree level, PARTIAL) walker model visited = git_visited for any ignore "
+         "files at any levels whose lines are in the class, composing last-match-wins, directory-only, nearest file "
+         "first and pruning. Missing lemma (stated, tested on every generated line): every line of the documented "
+         "grammar is in the class (its glob-parser half is proved in C12). Known findings refuted by witness. Tie to "
+         "the code: three-way, git ls-files vs rg --files and ignore::WalkBuilder and "
+         "Gitignore::matched_path_or_any_parents vs the model; extracted GitSem vs real git.",
     note="trusted: git 2.39 as executable specification; Coq kernel, extraction, OCaml driver, Rust harness; C12's trusted "
          "base (regex-automata reading of the regex text); known findings: bracket classes that can match '/', "
          "unescaped braces (alternation is a globset extension)",
